@@ -38,8 +38,10 @@ def _case(draw):
     elif c == "accuracy":
         cfg["cZeroFindingAccuracy"] = 10 ** draw(st.floats(-5.0, -2.0))
     elif c == "iterations":
-        cfg["cMaxIterations"] = draw(st.integers(20, 40))
-    return {"shot": spec, "D": Dz, "config": cfg, "via": draw(st.sampled_from(["set_weapon_zero", "barrel_elevation_for_target"]))}
+        cfg["cMaxIterations"] = draw(st.one_of(st.integers(20, 40), st.integers(1, 4)))
+    return {"shot": spec, "D": Dz, "config": cfg, "via": draw(st.sampled_from(["set_weapon_zero", "barrel_elevation_for_target"])),
+            # history: the calculator may have been used before for a shot along another sight line
+            "used_before_look_deg": draw(st.one_of(st.none(), st.floats(-50.0, 50.0)))}
 
 
 def _height_at(calc, spec, elev_total, Rh):
@@ -65,6 +67,9 @@ def check(case):
     r.label("look:" + ("0" if look == 0 else "<=10" if abs(look) <= 10 * gen.DEG else "<=45" if abs(look) <= 45 * gen.DEG else ">45"),
             "wind" if spec.get("winds") else "calm")
     calc = build.calculator(cfg)
+    if case.get("used_before_look_deg") is not None:
+        build.fire(calc, build.shot(dict(spec, look=case["used_before_look_deg"] * gen.DEG, winds=None)), 40.0, 20.0)
+        r.label("calculator-used-before")
     sh = build.shot(spec)
     before = build.snapshot_shot(sh)
     zero_unit_before = sh.weapon.zero_elevation.units
@@ -151,7 +156,9 @@ def check(case):
                 prev_e, prev_y = e_deg, y
             if base - aim_y > 0:
                 reach_margin = False  # sight-line launch already above the aim point (negative hold): not asserted
-        if reach_margin:
+        if reach_margin and n_it < 20:
+            r.label("few-iterations-allowed-to-fail")   # a calculator capped below the default may legitimately give up
+        elif reach_margin:
             steep = abs(look) > 5 * gen.DEG
             # mechanism predicate of the recorded finding: the finder's *first* trial uses the stored zero as its starting
             # elevation; if that points below the sight line the trial itself leaves the calculator's limits before it
